@@ -25,6 +25,9 @@ import math
 import z3
 
 
+_FRESH = [0]
+
+
 class Unsupported(Exception):
     pass
 
@@ -128,8 +131,8 @@ class Fn:
 
     # ------------------------------------------------------------------------------------------
     def fresh_int(self, tag):
-        self._fresh += 1
-        return z3.Int('%s!%s%d' % (self.prefix, tag, self._fresh))
+        _FRESH[0] += 1          # global counter: a callee translated twice must not reuse variable names
+        return z3.Int('%s!%s%d' % (self.prefix, tag, _FRESH[0]))
 
     def floor(self, x):
         """floor of a Real term through a fresh Int variable."""
@@ -214,6 +217,10 @@ class Fn:
             if all(isinstance(x, int) for x in a + b):
                 return CondTuple(c, a, b)     # two constant tables selected by a condition
             return tuple(self.ite(c, x, y) for x, y in zip(a, b))
+        if a == '' and isinstance(b, StrSlice):
+            a = StrSlice(0, 0)
+        if b == '' and isinstance(a, StrSlice):
+            b = StrSlice(0, 0)
         if isinstance(a, StrSlice) and isinstance(b, StrSlice):
             return StrSlice(self.ite(c, a.lo, b.lo), self.ite(c, a.hi, b.hi))
         if a is b:
@@ -267,17 +274,15 @@ class Fn:
                 s = ast.Assign([s.target], s.value)
             if isinstance(s, ast.Assign):
                 v = self.expr(s.value, st)
-                if len(s.targets) != 1:
-                    raise Unsupported('chained assignment')
-                t = s.targets[0]
-                if isinstance(t, ast.Name):
-                    st[t.id] = v
-                elif isinstance(t, ast.Tuple) and isinstance(v, tuple) and len(v) == len(t.elts) \
-                        and all(isinstance(e, ast.Name) for e in t.elts):
-                    for e, x in zip(t.elts, v):
-                        st[e.id] = x
-                else:
-                    raise Unsupported('assignment target ' + ast.dump(t)[:60])
+                for t in s.targets:
+                    if isinstance(t, ast.Name):
+                        st[t.id] = v
+                    elif isinstance(t, ast.Tuple) and isinstance(v, tuple) and len(v) == len(t.elts) \
+                            and all(isinstance(e, ast.Name) for e in t.elts):
+                        for e, x in zip(t.elts, v):
+                            st[e.id] = x
+                    else:
+                        raise Unsupported('assignment target ' + ast.dump(t)[:60])
                 continue
             if isinstance(s, ast.AugAssign) and isinstance(s.target, ast.Name):
                 st[s.target.id] = self.binop(s.op, st[s.target.id], self.expr(s.value, st))
